@@ -18,7 +18,7 @@ FILES = ["pyoda_time/time_zones/Tzdb.nzd", "tests/test_data/Tzdb2013bFromNodaTim
 
 META = {
     "property": "C14",
-    "proof_modules": ["PyodaProofs.C14"],
+    "proof_modules": ["PyodaProofs.C14", "PyodaProofs.C14Session"],
     "drivers": ["drv_codec"],
     "theorems": [
         "Pyoda.C14.read_write_byte", "Pyoda.C14.read_write_varint", "Pyoda.C14.read_write_count",
@@ -33,16 +33,22 @@ META = {
         "Pyoda.C14.read_write_dictionary", "Pyoda.C14.read_write_alternatingMap_pool", "Pyoda.C14.read_write_recurrence_pool",
         "Pyoda.C14.read_write_precalculatedZone_pool", "Pyoda.C14.read_write_fixedZone",
         "Pyoda.C14.write_read_canonical", "Pyoda.C14.canonical_decode_reencode", "Pyoda.C14.canonical_check_sound",
+        "Pyoda.C14.readByteM_refines", "Pyoda.C14.readStringM_refines", "Pyoda.C14.readValM_refines",
+        "Pyoda.C14.hasMoreDataM_spec", "Pyoda.C14.peek_iff_remaining", "Pyoda.C14.peek_pure",
+        "Pyoda.C14.val_roundtrip", "Pyoda.C14.session_roundtrip",
+        "Pyoda.C14.stepW_writeString", "Pyoda.C14.writeString_uses_current_pool",
     ],
     "trusted_base": [
         "Python str <-> UTF-8 bytes is a bijection on strings without lone surrogates (the model keeps strings as their encodings)",
         "bit operations of the code (&, |, >>, <<) equal the arithmetic forms used in the model on the stated ranges (sampled by suite codec.prim)",
         "io.BytesIO read/write semantics",
+        "sessions: the caller's operations on the shared pool list (clear, slice assignment, append) and the reader's one-byte look-ahead are what PoolAct.apply / RState describe (suite codec.sessions drives one real writer and one real reader per session)",
     ],
     "partial": [
         "proved: every primitive, year offset, alternating map, recurrence, dictionary, fixed zone and the whole precalculated zone, for inline strings and for any string pool that contains the strings; write_read_canonical for precalculated zones where Canonical = accepted by the strict decoder (every primitive is in the form its writer emits, see milliseconds_form / transition_form / signedCount_form); the same check is evaluated on every zone field of both real files and on ~2 500 mutated fields against the code's own decode-and-re-encode test",
         "write_signed_count has no range check in the code, so there is no write_dom_raises for it (oracle key scount-outside-int32-accepted)",
         "the 172 799 999 millisecond values are covered by the theorem on the model; the code is exercised on every form switch and a seeded sample (quick) ",
+        "sessions (stateful reader/writer): proved for any script of byte/count/signed count/milliseconds/offset/transition/string/dictionary/year offset/recurrence values, any number of documents, any pool actions between documents and appends inside them, any number of peeks; a session ends at the first exception (the state a reader or writer is left in by an exception is not modelled); whole zones inside sessions are covered by read_write_precalculatedZone_pool on fresh objects only",
     ],
     "rule": "ops are generated at every form switch of every primitive +-1 plus seeded random; distinct = distinct op line / oracle case; non-trivial = every op (each exercises an encoder or decoder path)",
 }
